@@ -121,6 +121,8 @@ def strategy(tier):
                 routes = ["setkey", "assign-dict", "update", "setdefault", "load_tree", "loads"]
             elif kind == "list-item":
                 val = st.one_of(specs.values(t[2]["item"]), specs.junk())
+                if t[2]["item"].get("req"):
+                    val = st.one_of(val, st.none())  # a missing (None) item where the item field is required
                 # in-place edits of a typed *scalar* list are not among the routes the statement lists
                 routes = ["assign-list", "load_tree", "loads"]
             else:
@@ -175,6 +177,9 @@ def exhaustive(tier):
                 for route in (("setkey", "update", "setdefault") if container == "dict" else ("append", "insert", "setitem", "extend")):
                     for src, dst in ((0, 2), (2, 0), (1, 2)):
                         yield {"mode": "takeover", "place": place, "container": container, "how": how, "route": route, "src": src, "dst": dst}
+    for place in ("root", "nested", "list-item", "ct-list-item"):
+        for route in ("load_tree", "loads-json", "loads-yaml", "ctor", "setitem"):
+            yield {"mode": "none-item", "place": place, "route": route}
     for configtype in (False, True):
         for place in ("root", "nested"):
             for where in ("top", "deeper"):
@@ -255,6 +260,57 @@ def _offered_instance_case(case, R):
     R.check(str(err).startswith(got), "text", "starts-with-path", lambda: "message %r does not start with the path %r" % (str(err)[:120], got))
 
 
+def _none_item_case(case, R):
+    """A typed list whose item field is required is offered a list that contains None."""
+    cc = sandbox._state["cc"]
+    schema = cc.Schema()
+    place = case["place"]
+    field = lambda: cc.ListField(cc.IntField(required=True))
+    if place == "root":
+        schema.ports = field()
+        path, tree = "ports", {"ports": [1, None, 3]}
+    elif place == "nested":
+        schema.net.inner.ports = field()
+        path, tree = "net.inner.ports", {"net": {"inner": {"ports": [1, None, 3]}}}
+    else:
+        item = cc.Schema()
+        item.ports = field()
+        item.name = cc.StringField(default="n")
+        schema.servers = cc.ListField(cc.make_type(item, "Node2", module=__name__) if place == "ct-list-item" else item)
+        path, tree = "servers[1].ports", {"servers": [{"name": "a"}, {"name": "b", "ports": [1, None, 3]}]}
+    cfg = schema()
+    route = case["route"]
+    R.label("none-item")
+    R.nontrivial = True
+    try:
+        if route == "load_tree":
+            cfg.load_tree(tree)
+        elif route in ("loads-json", "loads-yaml"):
+            fmt = route.split("-")[1]
+            cfg.loads(cc.ConfigFormat.get(fmt).dumps(cfg, tree), fmt)
+        elif route == "ctor":
+            schema(**tree)
+        elif route == "setitem":
+            if place in ("list-item", "ct-list-item"):
+                cfg.servers = [{"name": "a"}, {"name": "b"}]
+                cfg.servers[1].ports = [1, None, 3]
+            else:
+                cfg[path] = [1, None, 3]
+        else:
+            return
+        err = None
+    except Exception as exc:
+        err = exc
+    site = "none-item:%s:%s" % (place, route)
+    if not R.check(err is not None, "must-raise", site, "None was accepted as an item of a list whose item field is required"):
+        return
+    if not R.check(isinstance(err, cc.ValidationError), "type", site + ":" + type(err).__name__, lambda: "raised %r" % (err,)):
+        return
+    got = err.ref_path
+    R.check(got == path or got.startswith(path + "["), "path", site, lambda: "None offered as an item of %s: error names %r" % (path, got))
+    R.check(str(err).startswith(got), "text", "starts-with-path", lambda: "message %r does not start with the path %r" % (str(err)[:120], got))
+
+
 def _takeover_case(case, R):
     cc = sandbox._state["cc"]
     item = cc.Schema()
@@ -330,6 +386,8 @@ def run_case(case, R):
         return _takeover_case(case, R)
     if case.get("mode") == "offered-instance":
         return _offered_instance_case(case, R)
+    if case.get("mode") == "none-item":
+        return _none_item_case(case, R)
     cc = sandbox._state["cc"]
     spec = case["spec"]
     if case["target"] is None:
